@@ -146,6 +146,34 @@ func scramble(m protoreflect.Message) {
 	})
 }
 
+// c24NoAST: the same for a result that carries no AST (parser.ResultWithoutAST): its clone has an equal, separate
+// proto and answers every node lookup the way the original does (the placeholder node; never a panic or nil).
+func c24NoAST(fd *descriptorpb.FileDescriptorProto) (err error) {
+	defer func() {
+		if p := recover(); p != nil {
+			err = fmt.Errorf("clone of a result without AST: panic in a node lookup: %v", p)
+		}
+	}()
+	res := parser.ResultWithoutAST(proto.Clone(fd).(*descriptorpb.FileDescriptorProto))
+	cl := parser.Clone(res)
+	if cl.FileDescriptorProto() == res.FileDescriptorProto() || !proto.Equal(cl.FileDescriptorProto(), res.FileDescriptorProto()) {
+		return fmt.Errorf("clone of a result without AST: proto shared or different")
+	}
+	if cl.AST() != nil {
+		return fmt.Errorf("clone of a result without AST has an AST")
+	}
+	if a, b := res.FileNode(), cl.FileNode(); a == nil || b == nil || a.Name() != b.Name() {
+		return fmt.Errorf("clone of a result without AST: FileNode lookups differ (%v, %v)", a, b)
+	}
+	return walkPair(res.FileDescriptorProto().ProtoReflect(), cl.FileDescriptorProto().ProtoReflect(), func(a, b protoreflect.Message) error {
+		la, lb := lookups(res, a), lookups(cl, b)
+		if (la.generic == nil) != (lb.generic == nil) || (la.opt == nil) != (lb.opt == nil) || (la.part == nil) != (lb.part == nil) || (la.exts == nil) != (lb.exts == nil) {
+			return fmt.Errorf("clone of a result without AST: node lookup for %s answers differently (original %v, clone %v)", a.Descriptor().FullName(), la, lb)
+		}
+		return nil
+	})
+}
+
 func c24Check(c srcCase, r *ev.Rec) error {
 	res, err := parseResult(c.Name, c.Text)
 	if err != nil {
@@ -182,6 +210,9 @@ func c24Check(c srcCase, r *ev.Rec) error {
 	if err != nil {
 		return fmt.Errorf("%v\nsource:\n%s", err, c.Text)
 	}
+	if err := c24NoAST(orig); err != nil {
+		return fmt.Errorf("%v\nsource:\n%s", err, c.Text)
+	}
 	// mutate the clone: original must not change (bytes and lookups)
 	scramble(cp.ProtoReflect())
 	if !bytes.Equal(detBytes(orig), before) {
@@ -214,7 +245,7 @@ func c24Check(c srcCase, r *ev.Rec) error {
 	return nil
 }
 
-const c24Rule = "parse a file into a parse result, Clone it; oracle: protos equal but no sub-message shared; for EVERY pair of corresponding elements (files, messages, fields, oneofs, extension ranges, reserved ranges, enums, values, services, methods, uninterpreted options and their name parts) each node lookup (generic and typed) returns the identical AST node; scrambling every scalar and growing every list of the clone leaves the original's encoding and lookups unchanged, and vice versa; non-trivial = file has options and fields and >=10 elements; distinct by source text"
+const c24Rule = "parse a file into a parse result, Clone it; oracle: protos equal but no sub-message shared; for EVERY pair of corresponding elements (files, messages, fields, oneofs, extension ranges, reserved ranges, enums, values, services, methods, uninterpreted options and their name parts) each node lookup (generic and typed) returns the identical AST node; scrambling every scalar and growing every list of the clone leaves the original's encoding and lookups unchanged, and vice versa; non-trivial = file has options and fields and >=10 elements; distinct by source text; the same parse result reduced to its proto (parser.ResultWithoutAST) is cloned too: equal separate proto, no AST, and every node lookup of the clone answers like the original's (placeholder node, never nil or a panic)"
 
 func TestC24_Generated(t *testing.T) {
 	ev.Run(t, ev.Spec[srcCase]{ID: "C24", Name: "Generated", Quick: 1200, Thorough: 50000, Rule: "generated valid files (maps, groups, proto3 optional, extension ranges, reserved ranges/names, options everywhere); " + c24Rule,
